@@ -49,7 +49,7 @@ theorem evexR_parsed (rule : Rule) (opcode reg vvvvv rm : BitVec 32) (imm : List
   generalize evexWord (xR opcode 0#32 reg vvvvv rm 0#32) opcode = w at *
   simp only [le32, List.cons_append, List.nil_append, hb0]
   have hmodb := modrmRR_mod (reg + (vvvvv <<< 7)) rm
-  rw [parse_evex_reg rule _ _ _ _ _ imm hs R.hpp8 (by rcases R.hmk with h | h <;> simp [h]) (by simp only [bit]; bv_decide)
+  rw [parse_evex_reg true rule _ _ _ _ _ imm (by simp) hs R.hpp8 (by rcases R.hmk with h | h <;> simp [h]) (by simp only [bit]; bv_decide)
         (by simp only [bit]; bv_decide) hmodb (by simp [R.himm, R.hrel]) R.hmoff]
   refine ⟨_, rfl, ?_, ?_, ?_, ?_, rfl⟩
   · refine ⟨Or.inr (Or.inr (Or.inl rfl)), rfl, rfl, rfl, hmodb, ?_, ?_, ?_, ?_, ?_, by simp, ?_⟩
@@ -103,7 +103,7 @@ theorem vex3R_parsed (rule : Rule) (opcode reg vvvvv rm : BitVec 32) (imm : List
   generalize vex3Word (vexPrep (xR opcode 0#32 reg vvvvv rm 0#32) opcode 0#32) opcode = w at *
   simp only [le32, List.cons_append, List.nil_append, hb0]
   have hmodb := modrmRR_mod (reg + (vvvvv <<< 7)) rm
-  rw [parse_vex3_reg rule _ _ _ _ imm hs R.hpp8 (by rcases R.hmk with h | h <;> simp [h]) hmodb (by simp [R.himm, R.hrel]) R.hmoff]
+  rw [parse_vex3_reg true rule _ _ _ _ imm (by simp) hs R.hpp8 (by rcases R.hmk with h | h <;> simp [h]) hmodb (by simp [R.himm, R.hrel]) R.hmoff]
   refine ⟨_, rfl, ?_, ?_, ?_, ?_, rfl⟩
   · refine ⟨Or.inr (Or.inl rfl), rfl, rfl, rfl, hmodb, ?_, ?_, ?_, ?_, ?_, ?_, by simp⟩
     · show (BitVec.truncate 8 (w >>> 24)).toNat = rule.opcode
@@ -151,7 +151,7 @@ theorem vex2R_parsed (rule : Rule) (opcode reg vvvvv rm : BitVec 32) (imm : List
   generalize (BitVec.truncate 8 (vex2Byte (vexPrep (xR opcode 0#32 reg vvvvv rm 0#32) opcode 0#32)) : BitVec 8) = b1 at *
   simp only [List.cons_append, List.nil_append]
   have hmodb := modrmRR_mod (reg + (vvvvv <<< 7)) rm
-  rw [parse_vex2_reg rule _ _ _ imm hs R.hpp8 (by rcases R.hmk with h | h <;> simp [h]) hmodb (by simp [R.himm, R.hrel]) R.hmoff]
+  rw [parse_vex2_reg true rule _ _ _ imm (by simp) hs R.hpp8 (by rcases R.hmk with h | h <;> simp [h]) hmodb (by simp [R.himm, R.hrel]) R.hmoff]
   refine ⟨_, rfl, ?_, ?_, ?_, ?_, rfl⟩
   · refine ⟨Or.inl rfl, rfl, rfl, rfl, hmodb, ?_, ?_, ?_, ?_, ?_, ?_, by simp⟩
     · show (opcode.truncate 8 : BitVec 8).toNat = rule.opcode
@@ -203,7 +203,7 @@ theorem emitVexEvexR_branches (c : Model.X86.Ctx) (opcode reg vvvvv rm : BitVec 
 /-- shape [reg, vvvv, rm], EVEX rule: whatever `EmitVexEvexR` emits when the EVEX branch is taken satisfies the monitor -/
 theorem vexR_rvm_formOk_evex (c : Model.X86.Ctx) (ctx : Spec.X86.Ctx) (rule : Rule) (opcode reg vvvvv rm : BitVec 32)
     (k0 k1 k2 : RegKind) (f0 f1 f2 : FormOp)
-    (hpe : c.preferEvex = false) (hk : c.extraId = 0#32) (hm64 : ctx.mode64 = true)
+    (hpe : c.preferEvex = false) (hk : c.extraId = 0#32) (hm64 : ctx.mode64 = true) (hmode : (rule.modes &&& 2 != 0) = true)
     (hr : reg < 32#32) (hv : vvvvv < 32#32) (hm : rm < 32#32) (hxop : opcode &&& 0x800#32 = 0#32)
     (hev : xR opcode 0#32 reg vvvvv rm 0#32 &&& 0x00D78150#32 ≠ 0#32)
     (hk0 : PlainKind k0) (hk1 : PlainKind k1) (hk2 : PlainKind k2)
@@ -217,12 +217,12 @@ theorem vexR_rvm_formOk_evex (c : Model.X86.Ctx) (ctx : Spec.X86.Ctx) (rule : Ru
   refine ⟨_, rfl, ?_⟩
   obtain ⟨p, hp, P, h0, h1, h2, -⟩ := evexR_parsed rule opcode reg vvvvv rm [] hr hv hm hxop R hs A
   simp only [emitImmByteOrDword] at *
-  exact vex_rvm_formOk ctx rule p _ _ k0 k1 k2 f0 f1 f2 _ _ _ hm64 hk0 hk1 hk2 R hf0 hf1 hf2 hal hp P h0 h1 h2
+  exact vex_rvm_formOk ctx rule p _ _ k0 k1 k2 f0 f1 f2 _ _ _ (by simpa [hm64] using hmode) hk0 hk1 hk2 R hf0 hf1 hf2 hal (by rw [hm64]; exact hp) P h0 h1 h2
 
 /-- shape [reg, vvvv, rm], VEX rule: the VEX3 or VEX2 bytes `EmitVexEvexR` emits when EVEX is not needed satisfy the monitor -/
 theorem vexR_rvm_formOk_vex (c : Model.X86.Ctx) (ctx : Spec.X86.Ctx) (rule : Rule) (opcode reg vvvvv rm : BitVec 32)
     (k0 k1 k2 : RegKind) (f0 f1 f2 : FormOp)
-    (hpe : c.preferEvex = false) (hk : c.extraId = 0#32) (hm64 : ctx.mode64 = true)
+    (hpe : c.preferEvex = false) (hk : c.extraId = 0#32) (hm64 : ctx.mode64 = true) (hmode : (rule.modes &&& 2 != 0) = true)
     (hr : reg < 16#32) (hv : vvvvv < 16#32) (hm : rm < 16#32) (hxop : opcode &&& 0x800#32 = 0#32) (hll : opcode &&& 0x40001000#32 = 0#32)
     (hmm : opcode &&& 0x1F00#32 ≠ 0#32)
     (hk0 : PlainKind k0) (hk1 : PlainKind k1) (hk2 : PlainKind k2)
@@ -242,7 +242,7 @@ theorem vexR_rvm_formOk_vex (c : Model.X86.Ctx) (ctx : Spec.X86.Ctx) (rule : Rul
     refine ⟨_, rfl, ?_⟩
     obtain ⟨p, hp, P, h0, h1, h2, -⟩ := vex3R_parsed rule opcode reg vvvvv rm [] hr hv hm hxop hll R hs A
     simp only [emitImmByteOrDword] at *
-    exact vex_rvm_formOk ctx rule p _ _ k0 k1 k2 f0 f1 f2 _ _ _ hm64 hk0 hk1 hk2 R hf0 hf1 hf2 hal hp P h0 h1 h2
+    exact vex_rvm_formOk ctx rule p _ _ k0 k1 k2 f0 f1 f2 _ _ _ (by simpa [hm64] using hmode) hk0 hk1 hk2 R hf0 hf1 hf2 hal (by rw [hm64]; exact hp) P h0 h1 h2
   · rw [if_neg h3]
     refine ⟨_, rfl, ?_⟩
     have h3' : vexPrep (xR opcode 0#32 reg vvvvv rm 0#32) opcode 0#32 &&& 0x8000803E#32 = 0#32 := by simpa using h3
@@ -251,12 +251,12 @@ theorem vexR_rvm_formOk_vex (c : Model.X86.Ctx) (ctx : Spec.X86.Ctx) (rule : Rul
       bv_decide
     obtain ⟨p, hp, P, h0, h1, h2, -⟩ := vex2R_parsed rule opcode reg vvvvv rm [] hr hv hm hll hmm1 h3' R hs A
     simp only [emitImmByteOrDword] at *
-    exact vex_rvm_formOk ctx rule p _ _ k0 k1 k2 f0 f1 f2 _ _ _ hm64 hk0 hk1 hk2 R hf0 hf1 hf2 hal hp P h0 h1 h2
+    exact vex_rvm_formOk ctx rule p _ _ k0 k1 k2 f0 f1 f2 _ _ _ (by simpa [hm64] using hmode) hk0 hk1 hk2 R hf0 hf1 hf2 hal (by rw [hm64]; exact hp) P h0 h1 h2
 
 /-- shape [reg, rm], EVEX rule: whatever `EmitVexEvexR` emits when the EVEX branch is taken satisfies the monitor -/
 theorem vexR_rm_formOk_evex (c : Model.X86.Ctx) (ctx : Spec.X86.Ctx) (rule : Rule) (opcode reg rm : BitVec 32)
     (k0 k2 : RegKind) (f0 f2 : FormOp)
-    (hpe : c.preferEvex = false) (hk : c.extraId = 0#32) (hm64 : ctx.mode64 = true)
+    (hpe : c.preferEvex = false) (hk : c.extraId = 0#32) (hm64 : ctx.mode64 = true) (hmode : (rule.modes &&& 2 != 0) = true)
     (hr : reg < 32#32) (hm : rm < 32#32) (hxop : opcode &&& 0x800#32 = 0#32)
     (hev : xR opcode 0#32 reg 0#32 rm 0#32 &&& 0x00D78150#32 ≠ 0#32)
     (hk0 : PlainKind k0) (hk2 : PlainKind k2)
@@ -270,12 +270,12 @@ theorem vexR_rm_formOk_evex (c : Model.X86.Ctx) (ctx : Spec.X86.Ctx) (rule : Rul
   refine ⟨_, rfl, ?_⟩
   obtain ⟨p, hp, P, h0, h1, h2, -⟩ := evexR_parsed rule opcode reg 0#32 rm [] hr (by decide) hm hxop R hs A
   simp only [emitImmByteOrDword] at *
-  exact vex_rm_formOk ctx rule p _ _ k0 k2 f0 f2 _ _ hm64 hk0 hk2 R hf0 hf2 hal hp P h0 h1 h2
+  exact vex_rm_formOk ctx rule p _ _ k0 k2 f0 f2 _ _ (by simpa [hm64] using hmode) hk0 hk2 R hf0 hf2 hal (by rw [hm64]; exact hp) P h0 h1 h2
 
 /-- shape [reg, rm], VEX rule: the VEX3 or VEX2 bytes `EmitVexEvexR` emits when EVEX is not needed satisfy the monitor -/
 theorem vexR_rm_formOk_vex (c : Model.X86.Ctx) (ctx : Spec.X86.Ctx) (rule : Rule) (opcode reg rm : BitVec 32)
     (k0 k2 : RegKind) (f0 f2 : FormOp)
-    (hpe : c.preferEvex = false) (hk : c.extraId = 0#32) (hm64 : ctx.mode64 = true)
+    (hpe : c.preferEvex = false) (hk : c.extraId = 0#32) (hm64 : ctx.mode64 = true) (hmode : (rule.modes &&& 2 != 0) = true)
     (hr : reg < 16#32) (hm : rm < 16#32) (hxop : opcode &&& 0x800#32 = 0#32) (hll : opcode &&& 0x40001000#32 = 0#32)
     (hmm : opcode &&& 0x1F00#32 ≠ 0#32)
     (hk0 : PlainKind k0) (hk2 : PlainKind k2)
@@ -295,7 +295,7 @@ theorem vexR_rm_formOk_vex (c : Model.X86.Ctx) (ctx : Spec.X86.Ctx) (rule : Rule
     refine ⟨_, rfl, ?_⟩
     obtain ⟨p, hp, P, h0, h1, h2, -⟩ := vex3R_parsed rule opcode reg 0#32 rm [] hr (by decide) hm hxop hll R hs A
     simp only [emitImmByteOrDword] at *
-    exact vex_rm_formOk ctx rule p _ _ k0 k2 f0 f2 _ _ hm64 hk0 hk2 R hf0 hf2 hal hp P h0 h1 h2
+    exact vex_rm_formOk ctx rule p _ _ k0 k2 f0 f2 _ _ (by simpa [hm64] using hmode) hk0 hk2 R hf0 hf2 hal (by rw [hm64]; exact hp) P h0 h1 h2
   · rw [if_neg h3]
     refine ⟨_, rfl, ?_⟩
     have h3' : vexPrep (xR opcode 0#32 reg 0#32 rm 0#32) opcode 0#32 &&& 0x8000803E#32 = 0#32 := by simpa using h3
@@ -304,12 +304,12 @@ theorem vexR_rm_formOk_vex (c : Model.X86.Ctx) (ctx : Spec.X86.Ctx) (rule : Rule
       bv_decide
     obtain ⟨p, hp, P, h0, h1, h2, -⟩ := vex2R_parsed rule opcode reg 0#32 rm [] hr (by decide) hm hll hmm1 h3' R hs A
     simp only [emitImmByteOrDword] at *
-    exact vex_rm_formOk ctx rule p _ _ k0 k2 f0 f2 _ _ hm64 hk0 hk2 R hf0 hf2 hal hp P h0 h1 h2
+    exact vex_rm_formOk ctx rule p _ _ k0 k2 f0 f2 _ _ (by simpa [hm64] using hmode) hk0 hk2 R hf0 hf2 hal (by rw [hm64]; exact hp) P h0 h1 h2
 
 /-- shape [reg, vvvv, rm, imm8], EVEX rule: whatever `EmitVexEvexR` emits when the EVEX branch is taken satisfies the monitor -/
 theorem vexR_rvmi_formOk_evex (c : Model.X86.Ctx) (ctx : Spec.X86.Ctx) (rule : Rule) (opcode reg vvvvv rm : BitVec 32)
     (k0 k1 k2 : RegKind) (f0 f1 f2 : FormOp)
-    (hpe : c.preferEvex = false) (hk : c.extraId = 0#32) (hm64 : ctx.mode64 = true)
+    (hpe : c.preferEvex = false) (hk : c.extraId = 0#32) (hm64 : ctx.mode64 = true) (hmode : (rule.modes &&& 2 != 0) = true)
     (hr : reg < 32#32) (hv : vvvvv < 32#32) (hm : rm < 32#32) (hxop : opcode &&& 0x800#32 = 0#32)
     (hev : xR opcode 0#32 reg vvvvv rm 0#32 &&& 0x00D78150#32 ≠ 0#32)
     (hk0 : PlainKind k0) (hk1 : PlainKind k1) (hk2 : PlainKind k2)
@@ -323,12 +323,12 @@ theorem vexR_rvmi_formOk_evex (c : Model.X86.Ctx) (ctx : Spec.X86.Ctx) (rule : R
   refine ⟨_, rfl, ?_⟩
   obtain ⟨p, hp, P, h0, h1, h2, hi⟩ := evexR_parsed rule opcode reg vvvvv rm [imm.truncate 8] hr hv hm hxop R hs A
   simp only [emitImmByteOrDword, Nat.one_ne_zero, beq_self_eq_true, ↓reduceIte, show ((1:Nat) == 0) = false from rfl, Bool.false_eq_true] at *
-  exact vex_rvmi_formOk ctx rule p _ _ k0 k1 k2 f0 f1 f2 _ _ _ hm64 hk0 hk1 hk2 R f3 imm hf3 hib (by simp [hi]) hf0 hf1 hf2 hal hp P h0 h1 h2
+  exact vex_rvmi_formOk ctx rule p _ _ k0 k1 k2 f0 f1 f2 _ _ _ (by simpa [hm64] using hmode) hk0 hk1 hk2 R f3 imm hf3 hib (by simp [hi]) hf0 hf1 hf2 hal (by rw [hm64]; exact hp) P h0 h1 h2
 
 /-- shape [reg, vvvv, rm, imm8], VEX rule: the VEX3 or VEX2 bytes `EmitVexEvexR` emits when EVEX is not needed satisfy the monitor -/
 theorem vexR_rvmi_formOk_vex (c : Model.X86.Ctx) (ctx : Spec.X86.Ctx) (rule : Rule) (opcode reg vvvvv rm : BitVec 32)
     (k0 k1 k2 : RegKind) (f0 f1 f2 : FormOp)
-    (hpe : c.preferEvex = false) (hk : c.extraId = 0#32) (hm64 : ctx.mode64 = true)
+    (hpe : c.preferEvex = false) (hk : c.extraId = 0#32) (hm64 : ctx.mode64 = true) (hmode : (rule.modes &&& 2 != 0) = true)
     (hr : reg < 16#32) (hv : vvvvv < 16#32) (hm : rm < 16#32) (hxop : opcode &&& 0x800#32 = 0#32) (hll : opcode &&& 0x40001000#32 = 0#32)
     (hmm : opcode &&& 0x1F00#32 ≠ 0#32)
     (hk0 : PlainKind k0) (hk1 : PlainKind k1) (hk2 : PlainKind k2)
@@ -348,7 +348,7 @@ theorem vexR_rvmi_formOk_vex (c : Model.X86.Ctx) (ctx : Spec.X86.Ctx) (rule : Ru
     refine ⟨_, rfl, ?_⟩
     obtain ⟨p, hp, P, h0, h1, h2, hi⟩ := vex3R_parsed rule opcode reg vvvvv rm [imm.truncate 8] hr hv hm hxop hll R hs A
     simp only [emitImmByteOrDword, Nat.one_ne_zero, beq_self_eq_true, ↓reduceIte, show ((1:Nat) == 0) = false from rfl, Bool.false_eq_true] at *
-    exact vex_rvmi_formOk ctx rule p _ _ k0 k1 k2 f0 f1 f2 _ _ _ hm64 hk0 hk1 hk2 R f3 imm hf3 hib (by simp [hi]) hf0 hf1 hf2 hal hp P h0 h1 h2
+    exact vex_rvmi_formOk ctx rule p _ _ k0 k1 k2 f0 f1 f2 _ _ _ (by simpa [hm64] using hmode) hk0 hk1 hk2 R f3 imm hf3 hib (by simp [hi]) hf0 hf1 hf2 hal (by rw [hm64]; exact hp) P h0 h1 h2
   · rw [if_neg h3]
     refine ⟨_, rfl, ?_⟩
     have h3' : vexPrep (xR opcode 0#32 reg vvvvv rm 0#32) opcode 0#32 &&& 0x8000803E#32 = 0#32 := by simpa using h3
@@ -357,12 +357,12 @@ theorem vexR_rvmi_formOk_vex (c : Model.X86.Ctx) (ctx : Spec.X86.Ctx) (rule : Ru
       bv_decide
     obtain ⟨p, hp, P, h0, h1, h2, hi⟩ := vex2R_parsed rule opcode reg vvvvv rm [imm.truncate 8] hr hv hm hll hmm1 h3' R hs A
     simp only [emitImmByteOrDword, Nat.one_ne_zero, beq_self_eq_true, ↓reduceIte, show ((1:Nat) == 0) = false from rfl, Bool.false_eq_true] at *
-    exact vex_rvmi_formOk ctx rule p _ _ k0 k1 k2 f0 f1 f2 _ _ _ hm64 hk0 hk1 hk2 R f3 imm hf3 hib (by simp [hi]) hf0 hf1 hf2 hal hp P h0 h1 h2
+    exact vex_rvmi_formOk ctx rule p _ _ k0 k1 k2 f0 f1 f2 _ _ _ (by simpa [hm64] using hmode) hk0 hk1 hk2 R f3 imm hf3 hib (by simp [hi]) hf0 hf1 hf2 hal (by rw [hm64]; exact hp) P h0 h1 h2
 
 /-- shape [reg, rm, imm8], EVEX rule: whatever `EmitVexEvexR` emits when the EVEX branch is taken satisfies the monitor -/
 theorem vexR_rmi_formOk_evex (c : Model.X86.Ctx) (ctx : Spec.X86.Ctx) (rule : Rule) (opcode reg rm : BitVec 32)
     (k0 k2 : RegKind) (f0 f2 : FormOp)
-    (hpe : c.preferEvex = false) (hk : c.extraId = 0#32) (hm64 : ctx.mode64 = true)
+    (hpe : c.preferEvex = false) (hk : c.extraId = 0#32) (hm64 : ctx.mode64 = true) (hmode : (rule.modes &&& 2 != 0) = true)
     (hr : reg < 32#32) (hm : rm < 32#32) (hxop : opcode &&& 0x800#32 = 0#32)
     (hev : xR opcode 0#32 reg 0#32 rm 0#32 &&& 0x00D78150#32 ≠ 0#32)
     (hk0 : PlainKind k0) (hk2 : PlainKind k2)
@@ -376,12 +376,12 @@ theorem vexR_rmi_formOk_evex (c : Model.X86.Ctx) (ctx : Spec.X86.Ctx) (rule : Ru
   refine ⟨_, rfl, ?_⟩
   obtain ⟨p, hp, P, h0, h1, h2, hi⟩ := evexR_parsed rule opcode reg 0#32 rm [imm.truncate 8] hr (by decide) hm hxop R hs A
   simp only [emitImmByteOrDword, Nat.one_ne_zero, beq_self_eq_true, ↓reduceIte, show ((1:Nat) == 0) = false from rfl, Bool.false_eq_true] at *
-  exact vex_rmi_formOk ctx rule p _ _ k0 k2 f0 f2 _ _ hm64 hk0 hk2 R f3 imm hf3 hib (by simp [hi]) hf0 hf2 hal hp P h0 h1 h2
+  exact vex_rmi_formOk ctx rule p _ _ k0 k2 f0 f2 _ _ (by simpa [hm64] using hmode) hk0 hk2 R f3 imm hf3 hib (by simp [hi]) hf0 hf2 hal (by rw [hm64]; exact hp) P h0 h1 h2
 
 /-- shape [reg, rm, imm8], VEX rule: the VEX3 or VEX2 bytes `EmitVexEvexR` emits when EVEX is not needed satisfy the monitor -/
 theorem vexR_rmi_formOk_vex (c : Model.X86.Ctx) (ctx : Spec.X86.Ctx) (rule : Rule) (opcode reg rm : BitVec 32)
     (k0 k2 : RegKind) (f0 f2 : FormOp)
-    (hpe : c.preferEvex = false) (hk : c.extraId = 0#32) (hm64 : ctx.mode64 = true)
+    (hpe : c.preferEvex = false) (hk : c.extraId = 0#32) (hm64 : ctx.mode64 = true) (hmode : (rule.modes &&& 2 != 0) = true)
     (hr : reg < 16#32) (hm : rm < 16#32) (hxop : opcode &&& 0x800#32 = 0#32) (hll : opcode &&& 0x40001000#32 = 0#32)
     (hmm : opcode &&& 0x1F00#32 ≠ 0#32)
     (hk0 : PlainKind k0) (hk2 : PlainKind k2)
@@ -401,7 +401,7 @@ theorem vexR_rmi_formOk_vex (c : Model.X86.Ctx) (ctx : Spec.X86.Ctx) (rule : Rul
     refine ⟨_, rfl, ?_⟩
     obtain ⟨p, hp, P, h0, h1, h2, hi⟩ := vex3R_parsed rule opcode reg 0#32 rm [imm.truncate 8] hr (by decide) hm hxop hll R hs A
     simp only [emitImmByteOrDword, Nat.one_ne_zero, beq_self_eq_true, ↓reduceIte, show ((1:Nat) == 0) = false from rfl, Bool.false_eq_true] at *
-    exact vex_rmi_formOk ctx rule p _ _ k0 k2 f0 f2 _ _ hm64 hk0 hk2 R f3 imm hf3 hib (by simp [hi]) hf0 hf2 hal hp P h0 h1 h2
+    exact vex_rmi_formOk ctx rule p _ _ k0 k2 f0 f2 _ _ (by simpa [hm64] using hmode) hk0 hk2 R f3 imm hf3 hib (by simp [hi]) hf0 hf2 hal (by rw [hm64]; exact hp) P h0 h1 h2
   · rw [if_neg h3]
     refine ⟨_, rfl, ?_⟩
     have h3' : vexPrep (xR opcode 0#32 reg 0#32 rm 0#32) opcode 0#32 &&& 0x8000803E#32 = 0#32 := by simpa using h3
@@ -410,6 +410,261 @@ theorem vexR_rmi_formOk_vex (c : Model.X86.Ctx) (ctx : Spec.X86.Ctx) (rule : Rul
       bv_decide
     obtain ⟨p, hp, P, h0, h1, h2, hi⟩ := vex2R_parsed rule opcode reg 0#32 rm [imm.truncate 8] hr (by decide) hm hll hmm1 h3' R hs A
     simp only [emitImmByteOrDword, Nat.one_ne_zero, beq_self_eq_true, ↓reduceIte, show ((1:Nat) == 0) = false from rfl, Bool.false_eq_true] at *
-    exact vex_rmi_formOk ctx rule p _ _ k0 k2 f0 f2 _ _ hm64 hk0 hk2 R f3 imm hf3 hib (by simp [hi]) hf0 hf2 hal hp P h0 h1 h2
+    exact vex_rmi_formOk ctx rule p _ _ k0 k2 f0 f2 _ _ (by simpa [hm64] using hmode) hk0 hk2 R f3 imm hf3 hib (by simp [hi]) hf0 hf2 hal (by rw [hm64]; exact hp) P h0 h1 h2
+
+
+theorem emitPP_eq (opcode : BitVec 32) (h : opcode &&& 0x00800000#32 = 0#32) :
+    emitPP opcode = ppBytes ((opcode >>> 21) &&& 3#32).toNat := by
+  have hc : (opcode >>> 21) &&& 7#32 = 0#32 ∨ (opcode >>> 21) &&& 7#32 = 1#32 ∨ (opcode >>> 21) &&& 7#32 = 2#32 ∨ (opcode >>> 21) &&& 7#32 = 3#32 := by bv_decide
+  have e : (opcode >>> 21) &&& 3#32 = (opcode >>> 21) &&& 7#32 := by bv_decide
+  rw [e]
+  rcases hc with c | c | c | c <;> simp [emitPP, c, ppBytes, opcodePP]
+
+theorem emitMM_eq (opcode : BitVec 32) (h : opcode &&& 0x1C00#32 = 0#32) :
+    emitMMAndOpcode opcode = legacyEscape ((opcode >>> 8) &&& 3#32).toNat ++ [opcode.truncate 8] := by
+  have hc : (opcode >>> 8) &&& 3#32 = 0#32 ∨ (opcode >>> 8) &&& 3#32 = 1#32 ∨ (opcode >>> 8) &&& 3#32 = 2#32 ∨ (opcode >>> 8) &&& 3#32 = 3#32 := by bv_decide
+  have e : (opcode &&& kMM_Mask) >>> 8 = (opcode >>> 8) &&& 3#32 := by simp only [kMM_Mask]; bv_decide
+  simp only [emitMMAndOpcode, e]
+  rcases hc with c | c | c | c <;> simp [c, legacyEscape]
+
+/-- the REX byte `EmitX86R` writes, as an optional byte -/
+def rexOf (opcode opReg rbReg : BitVec 32) : Option (BitVec 8) :=
+  let rex := extractRex opcode 0#32 ||| ((opReg &&& 8#32) >>> 1) ||| ((rbReg &&& 8#32) >>> 3)
+  if (rex &&& 0x7F#32) != 0#32 then some ((rex &&& 0x7F#32 ||| 0x40#32).truncate 8) else none
+
+theorem emitX86R_bytes (opcode opReg rbReg : BitVec 32) (imm : BitVec 64) (n : Nat)
+    (hopc : opcode &&& 0xF7801C00#32 = 0#32) (ho : opReg < 16#32) (hb : rbReg < 16#32) :
+    emitX86R opcode 0#32 opReg rbReg imm n =
+      .ok (ppBytes ((opcode >>> 21) &&& 3#32).toNat ++ (rexOf opcode opReg rbReg).toList ++ legacyEscape ((opcode >>> 8) &&& 3#32).toNat ++
+           [opcode.truncate 8, modrmRR opReg rbReg] ++ emitImmediate imm n) := by
+  have hrex : ¬ (extractRex opcode 0#32 ||| ((opReg &&& 8#32) >>> 1) ||| ((rbReg &&& 8#32) >>> 3)) > 0x80#32 := by
+    simp only [extractRex]; bv_decide
+  simp only [emitX86R, emitRex, hrex, ↓reduceIte, bind, Except.bind, pure, Except.pure,
+    emitPP_eq opcode (by bv_decide), emitMM_eq opcode (by bv_decide), rexOf, modrmRR]
+  split <;> simp
+
+theorem toNat_div16_eq4 (b : BitVec 8) (h : b >>> 4 = 4#8) : b.toNat / 16 = 4 := by
+  have := congrArg BitVec.toNat h
+  simpa [BitVec.toNat_ushiftRight, Nat.shiftRight_eq_div_pow] using this
+
+/-- opcode word and legacy rule agree -/
+structure LegAgree (rule : Rule) (opcode : BitVec 32) : Prop where
+  hop : rule.opcode = (opcode &&& 0xFF#32).toNat
+  hmap : rule.map = ((opcode >>> 8) &&& 3#32).toNat
+  hw : wWant rule = 2 ∨ wWant rule = ((opcode >>> 27) &&& 1#32).toNat
+  hsafe : (opcode >>> 8) &&& 3#32 = 0#32 → isLegacyPrefix (opcode.truncate 8) false = false ∧ (opcode.truncate 8 : BitVec 8) >>> 4 ≠ 4#8
+
+/-- `EmitX86R` (legacy register form): the bytes parse into fields spelling (reg, rm), for ALL register numbers 0..15 -/
+theorem x86R_parsed (rule : Rule) (opcode opReg rbReg : BitVec 32) (imm : BitVec 64) (n : Nat)
+    (hopc : opcode &&& 0xF7801C00#32 = 0#32) (ho : opReg < 16#32) (hb : rbReg < 16#32)
+    (R : LegRule rule n ((opcode >>> 21) &&& 3#32).toNat) (A : LegAgree rule opcode) :
+    ∃ bytes p, emitX86R opcode 0#32 opReg rbReg imm n = .ok bytes ∧ parse true rule bytes = .ok p ∧
+      LegParsed rule p (modrmRR opReg rbReg) ((opcode >>> 21) &&& 3#32).toNat ∧
+      regNum false p.R (bits (modrmRR opReg rbReg) 3 3) = opReg.toNat ∧
+      regNum false p.B (bits (modrmRR opReg rbReg) 0 3) = rbReg.toNat ∧ p.imm = emitImmediate imm n := by
+  obtain ⟨hop, hmap, hw, hsafe⟩ := A
+  have hmodb := modrmRR_mod opReg rbReg
+  have hlen : (emitImmediate imm n).length = rule.immBytes + rule.relBytes := by
+    rw [(imm_le_exact imm n).1, R.himm, R.hrel]; rfl
+  have hpplt : ((opcode >>> 21) &&& 3#32).toNat < 4 := by
+    have : (opcode >>> 21) &&& 3#32 < 4#32 := by bv_decide
+    simpa [BitVec.lt_def] using this
+  have hmaplt : rule.map < 4 := by
+    rw [hmap]
+    have : (opcode >>> 8) &&& 3#32 < 4#32 := by bv_decide
+    simpa [BitVec.lt_def] using this
+  have hrexv : ∀ b, rexOf opcode opReg rbReg = some b → b >>> 4 = 4#8 ∧
+      (b.getLsbD 3 = opcode.getLsbD 27) ∧ (b.getLsbD 2 = opReg.getLsbD 3) ∧ (b.getLsbD 0 = rbReg.getLsbD 3) := by
+    intro b hb'
+    unfold rexOf at hb'
+    dsimp only at hb'
+    split at hb'
+    · injection hb' with hb'; subst hb'; simp only [extractRex] at *; refine ⟨?_, ?_, ?_, ?_⟩ <;> bv_decide
+    · contradiction
+  have hnone : rexOf opcode opReg rbReg = none → opcode.getLsbD 27 = false ∧ opReg.getLsbD 3 = false ∧ rbReg.getLsbD 3 = false := by
+    intro hn
+    unfold rexOf at hn
+    dsimp only at hn
+    split at hn
+    · contradiction
+    · rename_i hz; simp only [extractRex] at hz; refine ⟨?_, ?_, ?_⟩ <;> bv_decide
+  have hrexH : ∀ b, rexOf opcode opReg rbReg = some b → b.toNat / 16 = 4 ∧ isLegacyPrefix b false = false := by
+    intro b hb'
+    obtain ⟨h4, -⟩ := hrexv b hb'
+    refine ⟨toNat_div16_eq4 b h4, ?_⟩
+    rw [Bool.eq_false_iff]
+    intro hh
+    simp only [isLegacyPrefix, Bool.or_eq_true, beq_iff_eq, Bool.false_and, Bool.or_false] at hh
+    bv_decide
+  have hoH : rule.map = 0 → isLegacyPrefix (opcode.truncate 8) false = false ∧
+      (true = true → rexOf opcode opReg rbReg = none → (opcode.truncate 8 : BitVec 8).toNat / 16 ≠ 4) := by
+    intro hm0
+    have hm0' : (opcode >>> 8) &&& 3#32 = 0#32 := by
+      apply BitVec.eq_of_toNat_eq; rw [← hmap, hm0]; rfl
+    obtain ⟨s1, s2⟩ := hsafe hm0'
+    refine ⟨s1, fun _ _ h => s2 ?_⟩
+    apply BitVec.eq_of_toNat_eq
+    simpa [BitVec.toNat_ushiftRight, Nat.shiftRight_eq_div_pow] using h
+  have hparse := parse_legacy_reg true rule _ (rexOf opcode opReg rbReg) (opcode.truncate 8) (modrmRR opReg rbReg) (emitImmediate imm n)
+    (by simp) hpplt R.hs R.hpp8 hmaplt (by rcases R.hmk with h | h <;> simp [h]) hrexH hoH hmodb hlen R.hmoff
+  rw [hmap] at hparse
+  refine ⟨_, _, emitX86R_bytes opcode opReg rbReg imm n hopc ho hb, hparse, ⟨rfl, rfl, rfl, hmodb, ?_, ?_, rfl⟩, ?_, ?_, rfl⟩
+  · show (opcode.truncate 8 : BitVec 8).toNat = rule.opcode
+    rw [hop]; exact toNat_eq_of_zext _ _ (by omega) (by bv_decide)
+  · rcases hw with h | h
+    · exact Or.inl h
+    · right
+      have hc : (opcode >>> 27) &&& 1#32 = 0#32 ∨ (opcode >>> 27) &&& 1#32 = 1#32 := by bv_decide
+      simp only [rexBit]
+      cases hr : rexOf opcode opReg rbReg with
+      | none =>
+        obtain ⟨w0, -, -⟩ := hnone hr
+        rcases hc with hc | hc
+        · rw [h, hc]; simp
+        · exfalso; bv_decide
+      | some b =>
+        obtain ⟨-, wb, -, -⟩ := hrexv b hr
+        simp only [bit]
+        rcases hc with hc | hc
+        · rw [h, hc, wb]; simp; bv_decide
+        · rw [h, hc, wb]; simp; bv_decide
+  · simp only [rexBit]
+    cases hr : rexOf opcode opReg rbReg with
+    | none =>
+      obtain ⟨-, r0, -⟩ := hnone hr
+      exact regNum_eq _ _ _ opReg (by simp only [modrmRR, encodeMod]; simp; bv_decide)
+    | some b =>
+      obtain ⟨-, -, rb, -⟩ := hrexv b hr
+      exact regNum_eq _ _ _ opReg (by simp only [bit, modrmRR, encodeMod, rb]; simp; bv_decide)
+  · simp only [rexBit]
+    cases hr : rexOf opcode opReg rbReg with
+    | none =>
+      obtain ⟨-, -, b0⟩ := hnone hr
+      exact regNum_eq _ _ _ rbReg (by simp only [modrmRR, encodeMod]; simp; bv_decide)
+    | some b =>
+      obtain ⟨-, -, -, bb⟩ := hrexv b hr
+      exact regNum_eq _ _ _ rbReg (by simp only [bit, modrmRR, encodeMod, bb]; simp; bv_decide)
+
+
+/-- legacy shape [reg-field operand, rm-field operand] in either operand order: the bytes of `EmitX86R` satisfy the monitor -/
+theorem legR_2reg_formOk (ctx : Spec.X86.Ctx) (rule : Rule) (opcode opReg rbReg : BitVec 32) (ka kb : RegKind) (fa fb : FormOp)
+    (hm64 : ctx.mode64 = true) (hmode : (rule.modes &&& 2 != 0) = true) (hopc : opcode &&& 0xF7801C00#32 = 0#32) (ho : opReg < 16#32) (hb : rbReg < 16#32)
+    (hka : PlainKind ka) (hkb : PlainKind kb)
+    (R : LegRule rule 0 ((opcode >>> 21) &&& 3#32).toNat) (A : LegAgree rule opcode)
+    (regFirst : Bool)
+    (hroles : if regFirst then fa.role = .reg ∧ fb.role = .rm else fa.role = .rm ∧ fb.role = .reg)
+    (hal : ∀ ia ib, alignOps rule.oszEff rule.ops [.reg ka ia, .reg kb ib] = some [(fa, some (.reg ka ia)), (fb, some (.reg kb ib))]) :
+    ∃ bytes, emitX86R opcode 0#32 opReg rbReg 0 0 = .ok bytes ∧
+      formOk ctx rule (if regFirst then [.reg ka opReg.toNat, .reg kb rbReg.toNat] else [.reg ka rbReg.toNat, .reg kb opReg.toNat]) {} bytes = true := by
+  obtain ⟨bytes, p, hb', hp, P, h0, h1, -⟩ := x86R_parsed rule opcode opReg rbReg 0 0 hopc ho hb R A
+  refine ⟨bytes, hb', ?_⟩
+  cases regFirst with
+  | true =>
+    simp only [↓reduceIte] at hroles ⊢
+    exact leg_2reg_formOk ctx rule p _ bytes _ ka kb fa fb _ _ (by simpa [hm64] using hmode) hka hkb R (Or.inl ⟨hroles.1, hroles.2, h0, h1⟩) (hal _ _) (by rw [hm64]; exact hp) P
+  | false =>
+    simp only [Bool.false_eq_true, ↓reduceIte] at hroles ⊢
+    exact leg_2reg_formOk ctx rule p _ bytes _ ka kb fa fb _ _ (by simpa [hm64] using hmode) hka hkb R (Or.inr ⟨hroles.1, hroles.2, h1, h0⟩) (hal _ _) (by rw [hm64]; exact hp) P
+
+/-- legacy shape [reg, rm, imm8] -/
+theorem legR_2reg_imm_formOk (ctx : Spec.X86.Ctx) (rule : Rule) (opcode opReg rbReg : BitVec 32) (ka kb : RegKind) (fa fb f3 : FormOp) (imm : BitVec 64)
+    (hm64 : ctx.mode64 = true) (hmode : (rule.modes &&& 2 != 0) = true) (hopc : opcode &&& 0xF7801C00#32 = 0#32) (ho : opReg < 16#32) (hb : rbReg < 16#32)
+    (hka : PlainKind ka) (hkb : PlainKind kb)
+    (R : LegRule rule 1 ((opcode >>> 21) &&& 3#32).toNat) (A : LegAgree rule opcode)
+    (hra : fa.role = .reg) (hrb : fb.role = .rm) (hf3 : f3.role = .imm) (hib : immBitsOf f3 = 8) (hsg : (immSignOf f3 == 1) = false)
+    (hal : ∀ ia ib, alignOps rule.oszEff rule.ops [.reg ka ia, .reg kb ib, .imm imm] =
+      some [(fa, some (.reg ka ia)), (fb, some (.reg kb ib)), (f3, some (.imm imm))]) :
+    ∃ bytes, emitX86R opcode 0#32 opReg rbReg imm 1 = .ok bytes ∧
+      formOk ctx rule [.reg ka opReg.toNat, .reg kb rbReg.toNat, .imm imm] {} bytes = true := by
+  obtain ⟨bytes, p, hb', hp, P, h0, h1, hi⟩ := x86R_parsed rule opcode opReg rbReg imm 1 hopc ho hb R A
+  refine ⟨bytes, hb', ?_⟩
+  exact leg_2reg_imm_formOk ctx rule p _ bytes _ ka kb fa fb _ _ (by simpa [hm64] using hmode) hka hkb R f3 imm hf3 hib hsg (by simp [hi, emitImmediate])
+    (Or.inl ⟨hra, hrb, h0, h1⟩) (hal _ _) (by rw [hm64]; exact hp) P
+
+/-! ### class X86Op: no explicit operands, no ModRM -/
+
+theorem emitX86Op_bytes (opcode : BitVec 32) (hopc : opcode &&& 0xF7801C00#32 = 0#32) :
+    emitX86Op opcode 0#32 0 0 =
+      .ok (ppBytes ((opcode >>> 21) &&& 3#32).toNat ++ (rexOf opcode 0#32 0#32).toList ++ legacyEscape ((opcode >>> 8) &&& 3#32).toNat ++
+           [opcode.truncate 8]) := by
+  have hrex : ¬ (extractRex opcode 0#32) > 0x80#32 := by simp only [extractRex]; bv_decide
+  have e : extractRex opcode 0#32 ||| ((0#32 &&& 8#32) >>> 1) ||| ((0#32 &&& 8#32) >>> 3) = extractRex opcode 0#32 := by bv_decide
+  simp only [emitX86Op, emitRex, hrex, ↓reduceIte, bind, Except.bind, pure, Except.pure,
+    emitPP_eq opcode (by bv_decide), emitMM_eq opcode (by bv_decide), rexOf, e, emitImmediate]
+  split <;> simp
+
+/-- class X86Op: the bytes `EmitX86Op` produces satisfy the monitor for a form without explicit operands -/
+theorem x86Op_formOk (ctx : Spec.X86.Ctx) (rule : Rule) (opcode : BitVec 32)
+    (hm64 : ctx.mode64 = true) (hmode : (rule.modes &&& 2 != 0) = true) (hopc : opcode &&& 0xF7801C00#32 = 0#32)
+    (hs : rule.space = 0) (hpp8 : rule.pp &&& 8 = 0)
+    (h66 : (rule.pp &&& 1 != 0 || rule.osz == 16) = (((opcode >>> 21) &&& 3#32).toNat == 1))
+    (hF3 : (rule.pp &&& 2 != 0) = (((opcode >>> 21) &&& 3#32).toNat == 2)) (hF2 : (rule.pp &&& 4 != 0) = (((opcode >>> 21) &&& 3#32).toNat == 3))
+    (hri : rule.ri = false) (ha67 : rule.a67 = false) (hmk : rule.modKind = 0)
+    (himm : rule.immBytes = 0) (hrel : rule.relBytes = 0) (hmoff : rule.moff = false)
+    (himpl : rule.ops.all (·.implicit) = true) (A : LegAgree rule opcode) :
+    ∃ bytes, emitX86Op opcode 0#32 0 0 = .ok bytes ∧ formOk ctx rule [] {} bytes = true := by
+  obtain ⟨hop, hmap, hw, hsafe⟩ := A
+  refine ⟨_, emitX86Op_bytes opcode hopc, ?_⟩
+  have hpplt : ((opcode >>> 21) &&& 3#32).toNat < 4 := by
+    have : (opcode >>> 21) &&& 3#32 < 4#32 := by bv_decide
+    simpa [BitVec.lt_def] using this
+  have hmaplt : rule.map < 4 := by
+    rw [hmap]
+    have : (opcode >>> 8) &&& 3#32 < 4#32 := by bv_decide
+    simpa [BitVec.lt_def] using this
+  have hrexv : ∀ b, rexOf opcode 0#32 0#32 = some b → b >>> 4 = 4#8 ∧ (b.getLsbD 3 = opcode.getLsbD 27) := by
+    intro b hb'
+    unfold rexOf at hb'
+    dsimp only at hb'
+    split at hb'
+    · injection hb' with hb'; subst hb'; simp only [extractRex] at *; refine ⟨?_, ?_⟩ <;> bv_decide
+    · contradiction
+  have hnone : rexOf opcode 0#32 0#32 = none → opcode.getLsbD 27 = false := by
+    intro hn
+    unfold rexOf at hn
+    dsimp only at hn
+    split at hn
+    · contradiction
+    · rename_i hz; simp only [extractRex] at hz; bv_decide
+  have hrexH : ∀ b, rexOf opcode 0#32 0#32 = some b → b.toNat / 16 = 4 ∧ isLegacyPrefix b false = false := by
+    intro b hb'
+    obtain ⟨h4, -⟩ := hrexv b hb'
+    refine ⟨toNat_div16_eq4 b h4, ?_⟩
+    rw [Bool.eq_false_iff]
+    intro hh
+    simp only [isLegacyPrefix, Bool.or_eq_true, beq_iff_eq, Bool.false_and, Bool.or_false] at hh
+    bv_decide
+  have hoH : rule.map = 0 → isLegacyPrefix (opcode.truncate 8) false = false ∧
+      (rexOf opcode 0#32 0#32 = none → (opcode.truncate 8 : BitVec 8).toNat / 16 ≠ 4) := by
+    intro hm0
+    have hm0' : (opcode >>> 8) &&& 3#32 = 0#32 := by
+      apply BitVec.eq_of_toNat_eq; rw [← hmap, hm0]; rfl
+    obtain ⟨s1, s2⟩ := hsafe hm0'
+    refine ⟨s1, fun _ h => s2 ?_⟩
+    apply BitVec.eq_of_toNat_eq
+    simpa [BitVec.toNat_ushiftRight, Nat.shiftRight_eq_div_pow] using h
+  have hparse := parse_legacy_op rule _ (rexOf opcode 0#32 0#32) (opcode.truncate 8) hpplt hs hpp8 hmaplt hmk hrexH hoH himm hrel hmoff
+  rw [hmap] at hparse
+  refine leg_nullary_formOk ctx rule _ _ _ (by simpa [hm64] using hmode) hs hpp8 h66 hF3 hF2 hpplt hri ha67 himpl (by rw [hm64]; exact hparse)
+    rfl rfl rfl ?_ ?_
+  · show (opcode.truncate 8 : BitVec 8).toNat = rule.opcode
+    rw [hop]; exact toNat_eq_of_zext _ _ (by omega) (by bv_decide)
+  · rcases hw with h | h
+    · exact Or.inl h
+    · right
+      have hc : (opcode >>> 27) &&& 1#32 = 0#32 ∨ (opcode >>> 27) &&& 1#32 = 1#32 := by bv_decide
+      simp only [rexBit]
+      cases hr : rexOf opcode 0#32 0#32 with
+      | none =>
+        have w0 := hnone hr
+        rcases hc with hc | hc
+        · rw [h, hc]; simp
+        · exfalso; bv_decide
+      | some b =>
+        obtain ⟨-, wb⟩ := hrexv b hr
+        simp only [bit]
+        rcases hc with hc | hc
+        · rw [h, hc, wb]; simp; bv_decide
+        · rw [h, hc, wb]; simp; bv_decide
 
 end AsmjitVerif.Props.C01
